@@ -502,14 +502,18 @@ type requestSender struct {
 
 func (r *requestSender) Send(writer io.Writer) error {
 	switch frm := r.request.Frame().(type) {
+	// The frame can be shared with other connections (e.g. a cached `PREPARE` frame) or with an earlier attempt of the
+	// same request, so the stream ID is set on a copy of the header instead of mutating the shared one.
 	case *frame.Frame:
-		frm.Header.StreamId = r.stream
-		vhook("sender.stamped", r.conn, r.stream, r.request, frm.Header)
-		return r.conn.codec.EncodeFrame(frm, writer)
+		hdr := *frm.Header
+		hdr.StreamId = r.stream
+		vhook("sender.stamped", r.conn, r.stream, r.request, &hdr)
+		return r.conn.codec.EncodeFrame(&frame.Frame{Header: &hdr, Body: frm.Body}, writer)
 	case *frame.RawFrame:
-		frm.Header.StreamId = r.stream
-		vhook("sender.stamped", r.conn, r.stream, r.request, frm.Header)
-		return r.conn.codec.EncodeRawFrame(frm, writer)
+		hdr := *frm.Header
+		hdr.StreamId = r.stream
+		vhook("sender.stamped", r.conn, r.stream, r.request, &hdr)
+		return r.conn.codec.EncodeRawFrame(&frame.RawFrame{Header: &hdr, Body: frm.Body}, writer)
 	default:
 		return errors.New("unhandled frame type")
 	}
